@@ -38,8 +38,8 @@ def _wset(N, which):
     if which is None:
         return list(range(N))
     if isinstance(which, int):
-        return [which]
-    return sorted(set(which))
+        return [which % N]
+    return sorted(set(w % N for w in which))
 
 
 def table(f, N):
@@ -447,6 +447,11 @@ class Prop:
             for h in ("all", "any", "none", "one"):
                 for w in [None] + subsets:
                     single(N, [h, w], "helper", helper=h, which="default" if w is None else "list%d" % len(w))
+            # positions counted from the end
+            for h in ("all", "any", "none", "one", "presence", "absence"):
+                for w in subsets[1:]:
+                    if rng.random() < 0.5:
+                        single(N, [h, [x - N if rng.random() < 0.6 else x for x in w]], "helper", helper=h, which="negative")
             for h in ("presence", "absence"):
                 for w in subsets:
                     single(N, [h, w], "helper", helper=h, which="list%d" % len(w))
@@ -555,6 +560,10 @@ class Prop:
             v = rng.randrange(N)
             h = ["sym", v] if rng.random() < 0.4 else bounded_tree(rng, N, rng.randint(1, 2), 12)
             h2 = rewrite(h) if rng.random() < 0.4 else h
+            if est_rank(["not", h2], N) > 32:        # cost guard: the operands are built unrounded before tn.round sees them
+                h2 = h
+            if est_rank(["not", h], N) > 32:
+                continue
             r = rng.random()
             if r < 0.35:
                 z = ["and", rnd(h), rnd(["not", h2])]           # contradiction
@@ -688,7 +697,7 @@ class Prop:
         def wl(w):
             if w is None:
                 return list(range(N))
-            return [int(w)] if isinstance(w, int) else [int(x) for x in w]
+            return [int(w) % N] if isinstance(w, int) else [int(x) % N for x in w]
         def tr(f):
             op = f[0]
             if op == "sym": return "(BSym %d)" % f[1]
